@@ -6,7 +6,7 @@
     the format" of property C02. *)
 From Coq Require Import List ZArith Lia Bool.
 From Webp Require Import Base.Res Base.Bytes Riff.RiffGrammar Vp8l.Vp8lPixel Vp8l.Vp8lSpec
-  Alpha.AlphaModel Conform.ConformVp8Hdr.
+  Alpha.AlphaModel Conform.ConformVp8Hdr Vp8.Vp8Spec.
 Import ListNotations.
 Open Scope Z_scope.
 
@@ -35,8 +35,17 @@ Record report := mkreport {
   r_vp8x : bool;
   r_rgba : option (list px);   (* VP8L: the decoded picture *)
   r_aplane : option (list Z);  (* VP8 + ALPH: the decoded alpha plane *)
-  r_part0 : Z                  (* VP8: declared partition-0 length *)
+  r_part0 : Z;                 (* VP8: declared partition-0 length *)
+  r_yuv : option (list Z * list Z * list Z)   (* VP8: Y, U, V after the loop filter (RFC 6386 decoder) *)
 }.
+
+(** The VP8 specification decoder's picture, if it accepts the stream with the
+    dimensions the header declares. *)
+Definition yuv_spec (p : list Z) (w h : Z) : option (list Z * list Z * list Z) :=
+  match Vp8Spec.decode_yuv p with
+  | Ok (w', h', y, u, v) => if (w' =? w) && (h' =? h) then Some (y, u, v) else None
+  | _ => None
+  end.
 
 Definition analyse (bs : list Z) : Res report :=
   let wfb := RiffGrammar.wf bs in
@@ -50,7 +59,7 @@ Definition analyse (bs : list Z) : Res report :=
           match Vp8lSpec.decode p, RiffGrammar.vp8l_header p with
           | Ok img, Some (w, h, a) =>
               Ok (mkreport wfb true w h a vp8x
-                    (if (i_w img =? w) && (i_h img =? h) then Some (i_px img) else None) None 0)
+                    (if (i_w img =? w) && (i_h img =? h) then Some (i_px img) else None) None 0 None)
           | _, _ => Err 2
           end
       | None =>
@@ -62,10 +71,12 @@ Definition analyse (bs : list Z) : Res report :=
                   if negb (h_key hd && h_show hd && (h_profile hd <=? 3) && (h_xscale hd =? 0) && (h_yscale hd =? 0)
                            && (h_part0_len hd <=? len rest)) then Err 4 else
                   match find_chunk T_ALPH cs with
-                  | None => Ok (mkreport wfb false (h_width hd) (h_height hd) false vp8x None None (h_part0_len hd))
+                  | None => Ok (mkreport wfb false (h_width hd) (h_height hd) false vp8x None None (h_part0_len hd)
+                                  (yuv_spec p (h_width hd) (h_height hd)))
                   | Some a =>
                       match alpha_decode a (h_width hd) (h_height hd) with
-                      | Ok plane => Ok (mkreport wfb false (h_width hd) (h_height hd) true vp8x None (Some plane) (h_part0_len hd))
+                      | Ok plane => Ok (mkreport wfb false (h_width hd) (h_height hd) true vp8x None (Some plane) (h_part0_len hd)
+                                         (yuv_spec p (h_width hd) (h_height hd)))
                       | _ => Err 5
                       end
                   end
